@@ -7,6 +7,8 @@ From M Require UnitGeom.
 From M Require Fuel.
 From M Require ExprCap.
 From M Require InputInv.
+From M Require ArrayReaders.
+From M Require ExprScenario.
 From M Require Dispatch.
 From M Require ExprModel.
 From M Require Framing2.
@@ -218,4 +220,25 @@ Theorem C01_input_buffer_inv_history :
 Proof. exact (@InputInv.input_buffer_inv_history). Qed.
 End T_input_buffer_inv_history.
 Definition C01_input_buffer_inv_history := @T_input_buffer_inv_history.C01_input_buffer_inv_history.
+
+Module T_array_reader_capacity. Import ArrayReaders. Local Open Scope bool_scope. Local Open Scope Z_scope.
+Import ParserModel. Local Open Scope Z_scope.
+Local Open Scope Z_scope.
+Theorem C01_array_reader_capacity :
+  forall ty cap c m,
+  let '(c1, m1, vals) := param_array (Z.to_nat cap) (array_reader ty) c m [] in Z.of_nat (length vals) <= Z.max 0 cap.
+Proof. exact (@ArrayReaders.array_reader_capacity). Qed.
+End T_array_reader_capacity.
+Definition C01_array_reader_capacity := @T_array_reader_capacity.C01_array_reader_capacity.
+
+Module T_chan_entry_capacity. Import ExprScenario. Local Open Scope bool_scope. Local Open Scope Z_scope.
+Import ParserModel. Local Open Scope Z_scope.
+Local Open Scope Z_scope.
+Theorem C01_chan_entry_capacity :
+  forall c t idx cap,
+  0 <= cap ->
+  let '(_, rep) := expr_chanlist c t idx cap in Z.of_nat (length rep) <= 3 + 2 * cap.
+Proof. exact (@ExprScenario.chan_entry_capacity). Qed.
+End T_chan_entry_capacity.
+Definition C01_chan_entry_capacity := @T_chan_entry_capacity.C01_chan_entry_capacity.
 
